@@ -49,7 +49,7 @@ func init() {
 		Doc: "DefaultLayer's closure: Key→v.Layer(bf); signed ints→int64→func(int64,uint)uint8; unsigned→uint64→func(uint64,uint)uint8; string/[]byte/other→CRC-64(crcTable) then the unsigned layer function; " +
 			"the integer layer functions count how often bf divides v (loop shape: v!=0 && v%bf==0; v/=bf; layer starts at 0, +1, returned); every constructor installs DefaultLayer as keyLayer.",
 		Run: runFormatLayer})
-	Register(&Rule{ID: "FORMATCONST_TRIM", Props: []string{"C14", "C01", "C02"}, Min: 1,
+	Register(&Rule{ID: "FORMATCONST_TRIM", Props: []string{"C14", "C01", "C02", "C05"}, Min: 1,
 		Doc: "(*mastNode).store marshals a copy of the node whose Link is set to nil iff the number of non-nil links is zero (counter starts at 0, +1 exactly for non-nil links; the nil store is guarded by counter==0 and nothing else).",
 		Run: runFormatTrim})
 	Register(&Rule{ID: "FORMATCONST_V1INPUT", Props: []string{"C14"}, Min: 2,
